@@ -199,12 +199,13 @@ def _flaky_serdes(serdes_mod, w, pos, spec):
 
             def serialize(self, value, serdes_context):
                 self._count("ser")
-                return "F" + serdes_mod.EXTENDED_TYPES_SERDES.serialize(value, serdes_context)
+                return self._spec.get("tag", "F") + serdes_mod.EXTENDED_TYPES_SERDES.serialize(value, serdes_context)
 
             def deserialize(self, data, serdes_context):
                 self._count("de")
-                if not data.startswith("F"):
-                    raise ValueError("not an F payload")
+                tag = self._spec.get("tag", "F")
+                if not data.startswith(tag):
+                    raise ValueError(f"not a {tag} payload")
                 return serdes_mod.EXTENDED_TYPES_SERDES.deserialize(data[1:], serdes_context)
         _XS["flaky"] = _Flaky
     return _XS["flaky"](w, pos, spec)
@@ -514,6 +515,11 @@ class Interp:
             return ctx.run_in_child_context(body, name=pos, config=self.cfgmod.ChildConfig(serdes=fs))
         return ctx.run_in_child_context(body, name=pos)
 
+    def _batch_serdes(self, kw, c, pos):
+        for key in ("serdes", "item_serdes"):
+            if c.get(key):
+                kw[key] = _flaky_serdes(self.serdes, self.w, f"{pos}#{key}", {"tag": c[key]})
+
     def _fserdes(self, st, pos):
         spec = st.get("fserdes")
         return None if spec is None else _flaky_serdes(self.serdes, self.w, pos, spec)
@@ -554,6 +560,7 @@ class Interp:
         cfg = None
         if c is not None:
             kw = {"max_concurrency": c.get("conc"), "completion_config": self._completion(c)}
+            self._batch_serdes(kw, c, pos)
             if c.get("summary"):
                 from aws_durable_execution_sdk_python.operation.parallel import ParallelSummaryGenerator
                 kw["summary_generator"] = ParallelSummaryGenerator()
@@ -576,6 +583,7 @@ class Interp:
         cfg = None
         if c is not None:
             kw = {"max_concurrency": c.get("conc"), "completion_config": self._completion(c)}
+            self._batch_serdes(kw, c, pos)
             if c.get("summary"):
                 from aws_durable_execution_sdk_python.operation.map import MapSummaryGenerator
                 kw["summary_generator"] = MapSummaryGenerator()
